@@ -1536,6 +1536,30 @@ def rule_dead(ctx):
                 why = "%s.kill() is reached only under `%s`, which does not cover every still-running filler" % (fillvar, " and ".join(("" if pol else "not ") + unparse(t, 40) for t, pol in g))
         ctx.ob("dead-cleanup", pa, node, "%s.kill()" % fillvar, "the filler process is stopped (it would block on a full queue with no consumers, and the later join would hang)", kf,
                "" if kf else why)
+        # the log process is a non-daemon child as well: left running it keeps the parent from exiting after the error
+        lw = None
+        try:
+            lw = ctx.model.func(H, "_log_worker")
+        except AnalysisError:
+            lw = None
+        logvar = None
+        if lw is not None:
+            for n in walk_no_nested(pa.node):
+                if isinstance(n, ast.Assign) and isinstance(n.value, ast.Call) and isinstance(n.value.func, ast.Attribute) and n.value.func.attr == "Process":
+                    kw = {k_.arg: k_.value for k_ in n.value.keywords}
+                    if isinstance(kw.get("target"), ast.Name) and kw["target"].id == lw.name and isinstance(n.targets[0], ast.Name):
+                        logvar = n.targets[0].id
+        if logvar is not None:
+            stops = [c for st in body for c in ast.walk(st) if isinstance(c, ast.Call) and isinstance(c.func, ast.Attribute)
+                     and c.func.attr in ("kill", "terminate") and dotted(c.func.value) == logvar]
+            okl = False
+            for c in stops:
+                g = _guards(body, c)
+                if g is not None and all(isinstance(t, ast.AST) and (dotted(getattr(t, "left", None)) == "%s.exitcode" % logvar or
+                                                                      (isinstance(t, ast.Call) and dotted(t.func) == "%s.is_alive" % logvar)) for t, _p in g):
+                    okl = True
+            ctx.ob("dead-cleanup", pa, node, "%s.kill()" % logvar, "the log process is stopped too (a running non-daemon child keeps the interpreter from exiting)", okl,
+                   "" if okl else "after a worker died the log process is left running: the error surfaces but the program never exits")
         # the cleanup precedes the unconditional joins
         joins = [i for i, s in enumerate(pa.body()) if any(isinstance(c, ast.Call) and isinstance(c.func, ast.Attribute) and c.func.attr == "join" for c in ast.walk(s))
                  and not any(s is mon for _ in [0])]
